@@ -1393,15 +1393,6 @@ func integerEqualsReal(i Integer, r Real) bool {
 func (intp *Interpreter) bindProc(proc Procedure) {
 	for i, elem := range proc {
 		switch obj := elem.(type) {
-		case Name:
-			val, err := intp.load(obj)
-			if err != nil {
-				continue
-			}
-			_, ok := val.(builtin)
-			if ok {
-				proc[i] = val
-			}
 		case Operator:
 			val, err := intp.load(obj)
 			if err != nil {
